@@ -387,25 +387,77 @@ def specialise(fn_node, sn, is_a):
     if not facts:
         return fn_node
 
+    return _specialise_with(fn_node, lambda t: tv(t, sn, facts))
+
+
+def _specialise_with(fn_node, decide):
+    """Keep only the side taken of every `if` / conditional expression whose test decide(test) -> True | False | None settles."""
     def f(n):
         if isinstance(n, ast.If):
-            v = tv(n.test, sn, facts)
+            v = decide(n.test)
             if v is None:
                 return None
             taken = n.body if v else n.orelse
-            body = [specialise_stmt(x) for x in taken] or [ast.copy_location(ast.Pass(), n)]
+            body = [_rewrite(x, f) for x in taken] or [ast.copy_location(ast.Pass(), n)]
             return ast.copy_location(ast.If(test=ast.copy_location(ast.Constant(value=True), n), body=body, orelse=[]), n)
         if isinstance(n, ast.IfExp):
-            v = tv(n.test, sn, facts)
+            v = decide(n.test)
             if v is None:
                 return None
             return _rewrite(n.body if v else n.orelse, f)
         return None
 
-    def specialise_stmt(x):
-        return _rewrite(x, f)
-
     return _rewrite(fn_node, f)
+
+
+def specialise_identity(fn_node, sn, flow: Flow, is_a):
+    """Second specialisation step, on a body already specialised to one class of self: tests `X is self` / `X is not self`
+    (under not / and / or) are settled where X can only stand for self (True), or only for parameters that a refusing guard of
+    the function — `if not isinstance(P, C): raise ...` at its top level — has established to be instances of classes self is
+    NOT an instance of (False: a different object).  E.g. roles named first (`potential, current = self, partner`) and the
+    field then chosen by `if self is potential:`."""
+    not_self = set()
+    for st in fn_node.body:
+        if isinstance(st, ast.If) and not st.orelse and st.body and isinstance(st.body[-1], ast.Raise) and isinstance(st.test, ast.UnaryOp) and isinstance(st.test.op, ast.Not):
+            c = st.test.operand
+            if isinstance(c, ast.Call) and isinstance(c.func, ast.Name) and c.func.id == "isinstance" and len(c.args) == 2 and isinstance(c.args[0], ast.Name):
+                classes = c.args[1].elts if isinstance(c.args[1], ast.Tuple) else [c.args[1]]
+                names = [k.attr if isinstance(k, ast.Attribute) else getattr(k, "id", None) for k in classes]
+                if names and all(nm is not None and is_a(nm) is False for nm in names):
+                    not_self.add(c.args[0].id)
+
+    def same_as_self(e):
+        os_ = flow.origins(e)
+        if os_ and all(is_self(o, sn) for o in os_):
+            return True
+        if os_ and all(isinstance(o, ast.Name) and o.id in not_self and o.id in flow.params and not flow.defs.get(o.id) for o in os_):
+            return False
+        return None
+
+    def decide(t):
+        if isinstance(t, ast.UnaryOp) and isinstance(t.op, ast.Not):
+            v = decide(t.operand)
+            return None if v is None else not v
+        if isinstance(t, ast.BoolOp):
+            vals = [decide(v) for v in t.values]
+            if isinstance(t.op, ast.And):
+                return False if any(v is False for v in vals) else True if all(v is True for v in vals) else None
+            return True if any(v is True for v in vals) else False if all(v is False for v in vals) else None
+        if isinstance(t, ast.Compare) and len(t.ops) == 1 and isinstance(t.ops[0], (ast.Is, ast.IsNot)):
+            a, b = t.left, t.comparators[0]
+            other = b if is_self(a, sn) else a if is_self(b, sn) else None
+            if other is None:
+                # both sides through locals: `potential is self` written with an alias of self
+                sa_, sb_ = same_as_self(a), same_as_self(b)
+                v = True if sa_ is True and sb_ is True else False if {sa_, sb_} == {True, False} else None
+            else:
+                v = same_as_self(other)
+            if v is None:
+                return None
+            return v if isinstance(t.ops[0], ast.Is) else not v
+        return None
+
+    return _specialise_with(fn_node, decide)
 
 
 # ---------------------------------------------------------------------- predicates
